@@ -15,7 +15,8 @@ import json
 
 from props import fraglib as fl
 
-# Lean witness of C06_complete_counterexample: total 30, arrival order [0,10) [0,20) [20,30)
+# Props/C06.lean histBad: total 30, arrival order [0,10) [0,20) [20,30). Before fix dc31f2b the second fragment was
+# dropped as "already seen" and nothing was delivered; now it must reassemble (regression input).
 WITNESS_RANGES = [(0, 10), (0, 20), (20, 30)]
 
 
